@@ -1,9 +1,9 @@
 SPECIFICATION Spec
-CONSTANT NFRAMES = 3
-CONSTANT Pats = {"a", "b"}
+CONSTANT NFRAMES = 4
+CONSTANT Pats = {"a", "b", "c"}
 CONSTANT MaxDepth = 30
-CONSTANT EMITMOD = 199
-CONSTANT EMITKF = 47
+CONSTANT EMITMOD = 997
+CONSTANT EMITKF = 251
 INVARIANT Conform
 INVARIANT QueriesPure
 INVARIANT GTMean
